@@ -15,7 +15,7 @@ use std::rc::Rc;
 pub static ENGINE: Engine = Engine {
     prop: "C13",
     level: "model_checking",
-    rule: "explicit-state exploration of the hidden state of BDDEnv<usize> for k=2 variables (ids 1,5): state = set of interned structures = child-closed subset of the 14 possible internal nodes (ALL such subsets are enumerated; each is built in a fresh real environment by a history of public mk_choice calls from the initial table, and the build is checked to yield exactly that table); transitions = every public operation (var, mk_const, not, 8 binary, ite, exists/all/exists_impl x variable lists <= 2, aln/amn/exn x operand lists <= 2 x n in -1..3, count_* x lists <= 1, model, infer, retain x 3 filters, clean, find, simplify, fp x 3 transformers, mk_choice with ordered arguments) on every tuple of currently interned nodes. After every transition: result == the same call in a minimal fresh environment (and == canon of the expected function where defined); every previously held handle unchanged; every table key equals its value, every child pointer of every table node and the result are Rc::ptr_eq to the table entry of the same structure; both leaves present; size() = number of keys; table only grows. Abstraction check: for every state-changing edge S -op1-> S1 the real post-history environment and build(S1) give identical results and identical successor tables for a set of follow-up operations. Long-lived histories: every sequence of 2 and 3 operations (not, 5 (3) binary connectives, exists, model, retain with both filters, clean on a pool of six functions plus earlier results; only the results are held, the operands are looked up in the table) on ONE environment, each result compared with a fresh environment, all earlier results re-inspected and the table invariants checked after every step. Formula level: every sequence <= 3 of 10 formulas through ParsedFormula::new_with_env on one shared environment vs fresh environments with re-inspection of all earlier results. distinct = distinct (state, operation, operands)",
+    rule: "explicit-state exploration of the hidden state of BDDEnv<usize> for k=2 variables (ids 1,5): state = set of interned structures = child-closed subset of the 14 possible internal nodes (ALL such subsets are enumerated; each is built in a fresh real environment by a history of public mk_choice calls from the initial table, and the build is checked to yield exactly that table); transitions = every public operation (var, mk_const, not, 8 binary, ite, exists/all/exists_impl x variable lists <= 2, aln/amn/exn x operand lists <= 2 x n in -1..3, count_* x lists <= 1, model, infer, retain x 3 filters, clean, find, simplify, fp x 3 transformers, mk_choice with ordered arguments) on every tuple of currently interned nodes. After every transition: result == the same call in a minimal fresh environment (and == canon of the expected function where defined); every previously held handle unchanged; every table key equals its value, every child pointer of every table node and the result are Rc::ptr_eq to the table entry of the same structure; both leaves present; size() = number of keys; table only grows. Abstraction check: for every state-changing edge S -op1-> S1 the real post-history environment and build(S1) give identical results and identical successor tables for a set of follow-up operations. Long-lived histories: every sequence of 2 and 3 operations (not, all 8 binary connectives (3 at the third step in quick), exists, model, retain with both filters, clean on a pool of six functions plus earlier results; only the results are held, the operands are looked up in the table) on ONE environment, each result compared with a fresh environment, all earlier results re-inspected and the table invariants checked after every step. Big table: one environment grown to ~66 000 nodes (1 200 variables, all 65 536 functions of four variables) with sharing and recomputation checks at checkpoints. Formula level: every sequence <= 3 of 10 formulas through ParsedFormula::new_with_env on one shared environment vs fresh environments with re-inspection of all earlier results. distinct = distinct (state, operation, operands)",
     assumptions: &["state abstraction = table contents (validated by the abstraction check: equal tables have equal futures)", "k=2 for the complete exploration; larger variable sets only through the formula-level sequences"],
     max_shards: 64,
     run,
@@ -685,7 +685,7 @@ fn run_history(ctx: &mut Ctx, w: &World, memo: &mut Memo, ops: &[HOp]) {
 }
 
 fn api_histories(ctx: &mut Ctx, w: &World, memo: &mut Memo) {
-    let all_bins = [Bin::And, Bin::Or, Bin::Xor, Bin::Implies, Bin::Iff];
+    let all_bins = ALL_BINS;
     let few_bins = [Bin::And, Bin::Or, Bin::Xor];
     let th = ctx.thorough();
     let mut idx = 0u64;
@@ -726,6 +726,154 @@ fn api_histories(ctx: &mut Ctx, w: &World, memo: &mut Memo) {
                 run_history(ctx, w, memo, &[op1.clone(), op2.clone(), op3]);
             }
         }
+    }
+}
+
+
+// ---------------------------------------------------------------------------------------
+// big tables: thresholds in the table size must not change anything
+
+/// One environment that grows to ~66 000 nodes: 1 200 variables, then all 65 536 functions
+/// of four variables through Shannon/ite, every handle held in exactly one place. At
+/// checkpoints and at the end: everything reachable from a held handle is the shared table
+/// node; recomputing a function by another route returns the very same node; size() equals
+/// the number of distinct structures.
+fn big_table_history(ctx: &mut Ctx) {
+    let case = |what: &str| json!({"part": "big-table", "what": what});
+    ctx.begin_case(|| case("run"));
+    let env = BDDEnv::<usize>::new();
+    let mut held: Vec<H> = vec![];
+    let check = |ctx: &mut Ctx, env: &BDDEnv<usize>, held: &[H], what: String| -> bool {
+        ctx.count("transitions", 1);
+        let nodes = env.nodes.borrow();
+        for h in held {
+            for n in robdd::distinct_nodes(h) {
+                match nodes.get(n.as_ref()) {
+                    Some(e) if Rc::ptr_eq(e, &n) => {}
+                    Some(_) => {
+                        ctx.violation(format!("{TAG} big table: {what}"), format!("with {} table entries a node reachable from a held diagram is a second copy of a table node: {}", nodes.len(), robdd::show(&n)), case(&what));
+                        return false;
+                    }
+                    None => {
+                        ctx.violation(format!("{TAG} big table: {what}"), format!("with {} table entries a node reachable from a held diagram is no longer in the table: {}", nodes.len(), robdd::show(&n)), case(&what));
+                        return false;
+                    }
+                }
+            }
+        }
+        if !nodes.contains_key(&BDD::True) || !nodes.contains_key(&BDD::False) || env.size() != nodes.len() {
+            ctx.violation(format!("{TAG} big table: {what}"), "a leaf is missing or size() disagrees with the table".into(), case(&what));
+            return false;
+        }
+        true
+    };
+    // phase 1: p = x0 & x1 held once, then many unrelated variables
+    let p = match guarded(|| env.and(env.var(0), env.var(1))) {
+        Ok(p) => p,
+        Err(m) => {
+            ctx.violation(format!("{TAG} big table: and(var0,var1)"), format!("panicked: {m}"), case("phase1"));
+            return;
+        }
+    };
+    held.push(p.clone());
+    for i in 2..1200usize {
+        match guarded(|| env.var(i)) {
+            Ok(v) => {
+                if i % 3 == 0 {
+                    held.push(v);
+                }
+            }
+            Err(m) => {
+                ctx.violation(format!("{TAG} big table: var({i})"), format!("panicked: {m}"), case("phase1"));
+                return;
+            }
+        }
+        if i % 128 == 0 && !check(ctx, &env, &held[..held.len().min(40)], format!("after creating {i} variables")) {
+            return;
+        }
+    }
+    match guarded(|| env.and(env.var(0), env.var(1))) {
+        Ok(p2) if Rc::ptr_eq(&p2, &p) => {}
+        Ok(_) => {
+            ctx.violation(format!("{TAG} big table: recompute and(var0,var1)"), "recomputing a held diagram after 1200 further variables returns a different node".into(), case("phase1"));
+            return;
+        }
+        Err(m) => {
+            ctx.violation(format!("{TAG} big table: recompute and(var0,var1)"), format!("panicked: {m}"), case("phase1"));
+            return;
+        }
+    }
+    // phase 2: all functions of four variables (ids above the padding variables)
+    let syms = [2000usize, 2003, 2004, 2009];
+    let sp4 = Space::<usize>::empty(&syms);
+    let mut by_tt: Vec<Option<H>> = vec![None; 65536];
+    fn shannon(env: &BDDEnv<usize>, syms: &[usize], tt: u64, level: usize, memo: &mut Vec<Option<H>>) -> H {
+        if let Some(h) = &memo[tt as usize] {
+            return h.clone();
+        }
+        let k = 4;
+        let r = if tt == 0 {
+            env.mk_const(false)
+        } else if tt == 0xffff {
+            env.mk_const(true)
+        } else {
+            let cof = |val: bool| {
+                let mut r = 0u64;
+                for a in 0..16usize {
+                    let b = if val { a | (1 << level) } else { a & !(1 << level) };
+                    if (tt >> b) & 1 == 1 {
+                        r |= 1 << a;
+                    }
+                }
+                r
+            };
+            let _ = k;
+            let t = shannon(env, syms, cof(true), level + 1, memo);
+            let e = shannon(env, syms, cof(false), level + 1, memo);
+            env.ite(env.var(syms[level]), t, e)
+        };
+        memo[tt as usize] = Some(r.clone());
+        r
+    }
+    for tt in 0..65536u64 {
+        match guarded(|| shannon(&env, &syms, tt, 0, &mut by_tt)) {
+            Ok(h) => {
+                if *h != *sp4.canon(tt) {
+                    ctx.violation(format!("{TAG} big table: function {tt:#x}"), format!("with {} table entries the diagram built for {tt:#x} is not its canonical diagram", env.size()), case("phase2"));
+                    return;
+                }
+                held.push(h);
+            }
+            Err(m) => {
+                ctx.violation(format!("{TAG} big table: function {tt:#x}"), format!("panicked: {m}"), case("phase2"));
+                return;
+            }
+        }
+        if (tt + 1) % 8192 == 0 {
+            let n = held.len();
+            if !check(ctx, &env, &held[n - 300..], format!("after building {} functions of four variables", tt + 1)) {
+                return;
+            }
+        }
+    }
+    // recompute every 37th function by negating twice: must be the very same node
+    for tt in (0..65536u64).step_by(37) {
+        let h = by_tt[tt as usize].clone().expect("built");
+        match guarded(|| env.not(env.not(h.clone()))) {
+            Ok(r) if Rc::ptr_eq(&r, &h) => {}
+            Ok(_) => {
+                ctx.violation(format!("{TAG} big table: recompute {tt:#x}"), "recomputing a held diagram returns a different node (sharing lost)".into(), case("phase3"));
+                return;
+            }
+            Err(m) => {
+                ctx.violation(format!("{TAG} big table: recompute {tt:#x}"), format!("panicked: {m}"), case("phase3"));
+                return;
+            }
+        }
+    }
+    let n = held.len();
+    if check(ctx, &env, &held[..400.min(n)], "at the end (oldest handles)".to_string()) {
+        ctx.count("big_table_nodes", env.size() as u64);
     }
 }
 
@@ -854,11 +1002,15 @@ fn run(ctx: &mut Ctx) {
         explore_state(ctx, &w, &mut memo, mask, scope(ctx.thorough(), n), ctx.thorough() || n <= 8);
     }
     api_histories(ctx, &w, &mut memo);
+    if ctx.shard == 0 {
+        big_table_history(ctx);
+    }
     formula_sequences(ctx);
 }
 
 fn replay(ctx: &mut Ctx, case: &Value) {
     match case["part"].as_str() {
+        Some("big-table") => big_table_history(ctx),
         Some("history") => {
             let w = World::new();
             let mut memo = Memo { fresh: FxHashMap::default() };
